@@ -39,9 +39,7 @@ structure HI0 (c : Cfg) (s : State) : Prop where
   srt : s.orderQ.Pairwise (fun x y => x.1 < y.1)
   og  : ∀ b i, (b, i) ∈ s.orderQ → b ≤ s.gnext
   ei  : ∀ b i, (b, i) ∈ s.orderQ → i < (if (rres c b).ok then (rres c b).nb else 1)
-  gs  : s.pdone = false → ∀ u ∈ s.orphans, u.f.inq = true → u.dropped = false →
-          s.gnext < u.base → Cov s u.base 0
-  dr  : s.pdone = false → ∀ u ∈ s.orphans, u.dropped = true → u.base < headOffs c s
+  gs  : s.pdone = false → ∀ u ∈ s.orphans, u.f.inq = true → s.gnext < u.base → Cov s u.base 0
   pt  : s.pdone = true → s.ptok = true
 
 /-- the ownership invariant -/
@@ -50,7 +48,7 @@ structure HI (c : Cfg) (s : State) : Prop where
   h1 : ∀ b i, (b, i) ∈ s.orderQ → McJob s b ∨ Cov s b i
 
 theorem HI_init (c : Cfg) : HI c (init c) := by
-  refine ⟨⟨?_, ?_, ?_, ?_, ?_, ?_, ?_, ?_⟩, ?_⟩ <;> simp [init]
+  refine ⟨⟨?_, ?_, ?_, ?_, ?_, ?_, ?_⟩, ?_⟩ <;> simp [init]
 
 /-! ### frames -/
 
@@ -67,8 +65,8 @@ theorem Cov_le {s : State} {b m m' : Nat} (hm : m' ≤ m) (h : Cov s b m) : Cov 
 
 /-- what a step that leaves `order_q`, `reord_q`, the ghost `gnext` and
     `parsing_done` alone may do: emit jobs only move, `head_offs` only grows,
-    a new orphan is either a `discard()`ed entry behind `head_offs` or the
-    complete entry of a finished speculative retrieve whose emit job exists -/
+    a new orphan is the complete entry of a finished speculative retrieve
+    whose emit job exists -/
 structure Fr (c : Cfg) (s s' : State) : Prop where
   eO : s'.orderQ = s.orderQ
   eR : s'.reordQ = s.reordQ
@@ -76,8 +74,7 @@ structure Fr (c : Cfg) (s s' : State) : Prop where
   eP : s'.pdone = s.pdone
   mE : ∀ e, EIn s e → EIn s' e
   eH : headOffs c s ≤ headOffs c s'
-  mO : s'.pdone = false → ∀ u ∈ s'.orphans, u ∈ s.orphans ∨
-         (u.dropped = true ∧ u.base < headOffs c s') ∨ (u.dropped = false ∧ Cov s' u.base 0)
+  mO : s'.pdone = false → ∀ u ∈ s'.orphans, u ∈ s.orphans ∨ Cov s' u.base 0
 
 theorem Fr.refl (c : Cfg) (s : State) : Fr c s s :=
   ⟨rfl, rfl, rfl, rfl, fun _ h => h, Nat.le_refl _, fun _ _ hu => Or.inl hu⟩
@@ -90,19 +87,17 @@ theorem Fr.trans {c : Cfg} {s s' s'' : State} (f : Fr c s s') (g : Fr c s' s'') 
   refine ⟨g.eO.trans f.eO, g.eR.trans f.eR, g.eG.trans f.eG, g.eP.trans f.eP,
     fun e he => g.mE e (f.mE e he), Nat.le_trans f.eH g.eH, ?_⟩
   intro hd u hu
-  rcases g.mO hd u hu with h | h | h
-  · rcases f.mO (by rw [← g.eP]; exact hd) u h with h | ⟨h1, h2⟩ | ⟨h1, h2⟩
+  rcases g.mO hd u hu with h | h
+  · rcases f.mO (by rw [← g.eP]; exact hd) u h with h | h
     · exact Or.inl h
-    · exact Or.inr (Or.inl ⟨h1, Nat.lt_of_lt_of_le h2 g.eH⟩)
-    · exact Or.inr (Or.inr ⟨h1, g.cov h2⟩)
-  · exact Or.inr (Or.inl h)
-  · exact Or.inr (Or.inr h)
+    · exact Or.inr (g.cov h)
+  · exact Or.inr h
 
 theorem HI0_frame {c : Cfg} {s s' : State} (h : HI0 c s) (f : Fr c s s')
     (eT : s'.pdone = true → s'.ptok = true) : HI0 c s' := by
-  obtain ⟨a1, a2, a3, a4, a5, a6, a7, _⟩ := h
-  obtain ⟨eO, eR, eG, eP, mE, eH, mO⟩ := id f
-  refine ⟨?_, ?_, ?_, ?_, ?_, ?_, ?_, eT⟩
+  obtain ⟨a1, a2, a3, a4, a5, a6, _⟩ := h
+  obtain ⟨eO, eR, eG, eP, mE, _, mO⟩ := id f
+  refine ⟨?_, ?_, ?_, ?_, ?_, ?_, eT⟩
   · intro o ho hst i hi hle
     rw [eR] at ho; rw [eO] at hi
     exact f.cov (a1 o ho hst i hi hle)
@@ -112,18 +107,11 @@ theorem HI0_frame {c : Cfg} {s s' : State} (h : HI0 c s) (f : Fr c s s')
   · rw [eO]; exact a3
   · intro b i hi; rw [eO] at hi; rw [eG]; exact a4 b i hi
   · intro b i hi; rw [eO] at hi; exact a5 b i hi
-  · intro hd u hu hq hnd hg
-    rcases mO hd u hu with h | ⟨h1, _⟩ | ⟨_, h2⟩
+  · intro hd u hu hq hg
+    rcases mO hd u hu with h | h2
     · rw [eG] at hg; rw [eP] at hd
-      exact f.cov (a6 hd u h hq hnd hg)
-    · rw [h1] at hnd; cases hnd
+      exact f.cov (a6 hd u h hq hg)
     · exact h2
-  · intro hd u hu hdr
-    rcases mO hd u hu with h | ⟨_, h2⟩ | ⟨h1, _⟩
-    · rw [eP] at hd
-      exact Nat.lt_of_lt_of_le (a7 hd u h hdr) eH
-    · exact h2
-    · rw [h1] at hdr; cases hdr
 
 theorem HI_frame {c : Cfg} {s s' : State} (h : HI c s) (f : Fr c s s')
     (eT : s'.pdone = true → s'.ptok = true)
@@ -322,7 +310,7 @@ theorem Cov_emitEnd {s s' : State} {e : EJob} {b m : Nat}
 theorem HI_emitEnd_core {c : Cfg} {s s' : State} {e : EJob} {onew : OB} (h : HI c s)
     (e1 : s'.orderQ = s.orderQ) (e3 : s'.gnext = s.gnext)
     (e4 : s'.pdone = s.pdone) (e7 : s'.retrQ = s.retrQ) (e8 : s'.orphans = s.orphans)
-    (e9 : s'.head = s.head) (eT : s'.ptok = s.ptok)
+    (eT : s'.ptok = s.ptok)
     (e6 : s'.busy = s.busy.erase (.emit e))
     (e2 : s'.reordQ = onew :: s.reordQ) (o1 : onew.base = e.base) (o2 : onew.idx = e.idx)
     (e5 : ∀ e0 ∈ s.emitQ, e0 ∈ s'.emitQ)
@@ -349,10 +337,8 @@ theorem HI_emitEnd_core {c : Cfg} {s s' : State} {e : EJob} {onew : OB} (h : HI 
     obtain ⟨e', h1, h2, h3, h4⟩ := hN' (hL hst)
     have := hL hst
     exact Or.inl ⟨e', h1, h2.trans o1.symm, by omega⟩
-  have hho : headOffs c s' = headOffs c s := by
-    show offs c s'.head = offs c s.head; rw [e9]
-  obtain ⟨⟨a1, a2, a3, a4, a5, a6, a7, a8⟩, b1⟩ := h
-  refine ⟨⟨?_, ?_, ?_, ?_, ?_, ?_, ?_, ?_⟩, ?_⟩
+  obtain ⟨⟨a1, a2, a3, a4, a5, a6, a8⟩, b1⟩ := h
+  refine ⟨⟨?_, ?_, ?_, ?_, ?_, ?_, ?_⟩, ?_⟩
   · intro o ho hst i hi hle
     rw [e2] at ho; rw [e1] at hi
     rcases List.mem_cons.1 ho with ho | ho
@@ -366,12 +352,9 @@ theorem HI_emitEnd_core {c : Cfg} {s s' : State} {e : EJob} {onew : OB} (h : HI 
   · rw [e1]; exact a3
   · intro b i hi; rw [e1] at hi; rw [e3]; exact a4 b i hi
   · intro b i hi; rw [e1] at hi; exact a5 b i hi
-  · intro hd u hu hq hnd hg
+  · intro hd u hu hq hg
     rw [e8] at hu; rw [e3] at hg; rw [e4] at hd
-    exact cov (a6 hd u hu hq hnd hg)
-  · intro hd u hu hdr
-    rw [e8] at hu; rw [e4] at hd; rw [hho]
-    exact a7 hd u hu hdr
+    exact cov (a6 hd u hu hq hg)
   · intro hd; rw [e4] at hd; rw [eT]; exact a8 hd
   · intro b i hi
     rw [e1] at hi
@@ -390,13 +373,13 @@ theorem HI_emitEnd {c : Cfg} {s s' : State} {e : EJob} (h : HI c s)
     split at hs
     · next hl =>
       simp only [Option.some.injEq] at hs; subst hs
-      refine HI_emitEnd_core (e := e) h rfl rfl rfl rfl rfl rfl rfl rfl rfl rfl rfl ?_ ?_ ?_
+      refine HI_emitEnd_core (e := e) h rfl rfl rfl rfl rfl rfl rfl rfl rfl rfl ?_ ?_ ?_
       · intro e0 he; exact List.mem_cons_of_mem _ he
       · intro _; exact ⟨_, List.mem_cons_self, rfl, rfl, rfl⟩
       · intro _; exact hl
     · next hl =>
       simp only [Option.some.injEq] at hs; subst hs
-      refine HI_emitEnd_core (e := e) h rfl rfl rfl rfl rfl rfl rfl rfl rfl rfl rfl ?_ ?_ ?_
+      refine HI_emitEnd_core (e := e) h rfl rfl rfl rfl rfl rfl rfl rfl rfl rfl ?_ ?_ ?_
       · intro e0 he; exact he
       · intro hl'; exact absurd hl' hl
       · intro hst
@@ -420,8 +403,7 @@ theorem Cov_erase {s s' : State} {ob : OB} {b m : Nat} (mE : ∀ e, EIn s e → 
 theorem HI_reorder_core {c : Cfg} {s s' : State} {ob : OB} {q' : List (Nat × Nat)} (h : HI c s)
     (e1 : s'.orderQ = q') (e2 : s'.reordQ = s.reordQ.erase ob) (e3 : s'.gnext = s.gnext)
     (e4 : s'.pdone = s.pdone) (e5 : s'.emitQ = s.emitQ) (e6 : s'.busy = s.busy)
-    (e7 : s'.retrQ = s.retrQ) (e8 : s'.orphans = s.orphans) (e9 : s'.head = s.head)
-    (eT : s'.ptok = s.ptok)
+    (e7 : s'.retrQ = s.retrQ) (e8 : s'.orphans = s.orphans) (eT : s'.ptok = s.ptok)
     (Q1 : ∀ b i, (b, i) ∈ q' → ∃ i0, i0 ≤ i ∧ (b, i0) ∈ s.orderQ)
     (Q2 : ∀ b i, (b, i) ∈ q' → McJob s b ∨ Cov s b i)
     (N1 : ∀ b i, (b, i) ∈ q' → ob.base = b → ob.idx < i)
@@ -433,10 +415,8 @@ theorem HI_reorder_core {c : Cfg} {s s' : State} {ob : OB} {q' : List (Nat × Na
     intro e he; simpa [EIn, e5, e6] using he
   have hR : ∀ o ∈ s.reordQ, o ≠ ob → o ∈ s'.reordQ := by
     intro o ho hne; rw [e2]; exact mem_erase_ne ho hne
-  have hho : headOffs c s' = headOffs c s := by
-    show offs c s'.head = offs c s.head; rw [e9]
-  obtain ⟨⟨a1, a2, a3, a4, a5, a6, a7, a8⟩, b1⟩ := h
-  refine ⟨⟨?_, ?_, ?_, ?_, ?_, ?_, ?_, ?_⟩, ?_⟩
+  obtain ⟨⟨a1, a2, a3, a4, a5, a6, a8⟩, b1⟩ := h
+  refine ⟨⟨?_, ?_, ?_, ?_, ?_, ?_, ?_⟩, ?_⟩
   · intro o ho hst i hi hle
     rw [e2] at ho; rw [e1] at hi
     obtain ⟨i0, hi0, hm0⟩ := Q1 _ _ hi
@@ -451,13 +431,10 @@ theorem HI_reorder_core {c : Cfg} {s s' : State} {ob : OB} {q' : List (Nat × Na
     obtain ⟨i0, _, hm0⟩ := Q1 _ _ hi
     exact a4 b i0 hm0
   · intro b i hi; rw [e1] at hi; exact hei b i hi
-  · intro hd u hu hq hnd hg
+  · intro hd u hu hq hg
     rw [e8] at hu; rw [e3] at hg; rw [e4] at hd
-    refine Cov_erase mE hR (a6 hd u hu hq hnd hg) ?_
+    refine Cov_erase mE hR (a6 hd u hu hq hg) ?_
     intro hb; have := N2 hd; omega
-  · intro hd u hu hdr
-    rw [e8] at hu; rw [e4] at hd; rw [hho]
-    exact a7 hd u hu hdr
   · intro hd; rw [e4] at hd; rw [eT]; exact a8 hd
   · intro b i hi
     rw [e1] at hi
@@ -497,7 +474,7 @@ theorem HI_reorder {c : Cfg} {s s' : State} {ob : OB} (h : HI c s) (hS : SI c s)
     · next hb =>
       simp only [Option.some.injEq] at hs; subst hs
       rcases bogus_facts hsel hmin hb with ⟨hq, hpd⟩ | ⟨x, r, hq, hlt⟩
-      · refine HI_reorder_core (ob := ob) (q' := s.orderQ) h rfl rfl rfl rfl rfl rfl rfl rfl rfl rfl
+      · refine HI_reorder_core (ob := ob) (q' := s.orderQ) h rfl rfl rfl rfl rfl rfl rfl rfl rfl
           ?_ ?_ ?_ ?_ h.h0.srt h.h0.ei
         · intro b i hi; rw [hq] at hi; cases hi
         · intro b i hi; rw [hq] at hi; cases hi
@@ -512,7 +489,7 @@ theorem HI_reorder {c : Cfg} {s s' : State} {ob : OB} (h : HI c s) (hS : SI c s)
           · exact Or.inr ((List.pairwise_cons.1 hp).1 _ hi)
         have hx : x ∈ s.orderQ := by rw [hq]; exact List.mem_cons_self
         have hxg : x.1 ≤ s.gnext := h.h0.og x.1 x.2 hx
-        refine HI_reorder_core (ob := ob) (q' := s.orderQ) h rfl rfl rfl rfl rfl rfl rfl rfl rfl rfl
+        refine HI_reorder_core (ob := ob) (q' := s.orderQ) h rfl rfl rfl rfl rfl rfl rfl rfl rfl
           ?_ h.h1 ?_ ?_ h.h0.srt h.h0.ei
         · intro b i hi; exact ⟨i, Nat.le_refl _, hi⟩
         · intro b i hi hb'
@@ -539,7 +516,7 @@ theorem HI_reorder {c : Cfg} {s s' : State} {ob : OB} (h : HI c s) (hS : SI c s)
         have hob' : (rres c ob.base).ok = true ∧ ob.idx + 1 < (rres c ob.base).nb := by
           simpa [obOK, hst] using hob
         refine HI_reorder_core (ob := ob) (q' := (ob.base, ob.idx + 1) :: r) h
-          (by simp only [hr]) rfl rfl rfl rfl rfl rfl rfl rfl rfl ?_ ?_ ?_ hN2 ?_ ?_
+          (by simp only [hr]) rfl rfl rfl rfl rfl rfl rfl rfl ?_ ?_ ?_ hN2 ?_ ?_
         · intro b i hi
           rcases List.mem_cons.1 hi with hi | hi
           · cases hi; exact ⟨ob.idx, Nat.le_succ _, hhead⟩
@@ -562,7 +539,7 @@ theorem HI_reorder {c : Cfg} {s s' : State} {ob : OB} (h : HI c s) (hS : SI c s)
       · next hst =>
         simp only [Option.some.injEq] at hs; subst hs
         refine HI_reorder_core (ob := ob) (q' := r) h
-          (by simp only [hr, List.tail_cons]) rfl rfl rfl rfl rfl rfl rfl rfl rfl ?_ ?_ ?_ hN2 hpc.2 ?_
+          (by simp only [hr, List.tail_cons]) rfl rfl rfl rfl rfl rfl rfl rfl ?_ ?_ ?_ hN2 hpc.2 ?_
         · intro b i hi; exact ⟨i, Nat.le_refl _, hrsub _ hi⟩
         · intro b i hi; exact h.h1 b i (hrsub _ hi)
         · intro b i hi hb0
@@ -591,28 +568,8 @@ theorem HI_frame' {c : Cfg} {s s' : State} (h : HI c s) (f : Fr c s s')
 
 /-! ### advance -/
 
-theorem orphan_dropped {j : Job} : ∀ u ∈ j.orphan, u.dropped = true ∧ u.base = j.base := by
-  intro u hu
-  unfold Job.orphan at hu
-  split at hu
-  · simp at hu
-  · split at hu
-    · simp at hu
-    · simp only [List.mem_singleton] at hu; subst hu; exact ⟨rfl, rfl⟩
-
-theorem Fr_advance {c : Cfg} {s : State} (p : Nat) (hb : ∀ j ∈ s.retrQ, j.base ≤ j.curr) :
-    Fr c s (advance c s p) := by
-  refine ⟨rfl, rfl, rfl, rfl, fun _ h => h, headOffs_advance_ge c s p, ?_⟩
-  intro _ u hu
-  simp only [advance, List.mem_append, List.mem_flatMap] at hu
-  rcases hu with ⟨j, hj, hu⟩ | hu
-  · have hjm := List.mem_filter.1 hj
-    have hlt' : j.curr < offs c (newHead c s p) := by simpa using hjm.2
-    have hlt : j.curr < headOffs c (advance c s p) := hlt'
-    obtain ⟨d1, d2⟩ := orphan_dropped u hu
-    have := hb j hjm.1
-    exact Or.inr (Or.inl ⟨d1, by omega⟩)
-  · exact Or.inl hu
+theorem Fr_advance {c : Cfg} {s : State} (p : Nat) : Fr c s (advance c s p) :=
+  ⟨rfl, rfl, rfl, rfl, fun _ h => h, headOffs_advance_ge c s p, fun _ _ hu => Or.inl hu⟩
 
 /-! ### scanEnd -/
 
@@ -654,7 +611,7 @@ theorem HI_scanEnd {c : Cfg} {s s' : State} {st k : Nat} (h : HI c s)
       · simp only [Option.some.injEq] at hs; subst hs
         exact HI_congr h1 rfl rfl rfl rfl rfl rfl rfl rfl rfl eT1
       · simp only [Option.some.injEq] at hs; subst hs
-        have h2 : HI c (scanNew s1 x) := by
+        have h2 : HI c (scanNew c s1 x) := by
           unfold scanNew; split
           · exact HI_congr h1 rfl rfl rfl rfl rfl rfl rfl rfl rfl eT1
           · refine HI_frame' h1 (Fr_same rfl rfl rfl rfl rfl rfl (fun _ he => he)) eT1 ?_
@@ -692,15 +649,14 @@ theorem no_mc_JIn {s : State} (h : mcount s = 0) {j : Job} (hj : JIn s j)
   · rw [hz.1 j hq] at hmc; cases hmc
   · exact no_mc_of_zero h j k hk hmc
 
-theorem retrMove_facts (c : Cfg) (s1 : State) (j : Job) (newc : Nat)
-    (hb : ∀ x ∈ s1.retrQ, x.base ≤ x.curr) :
+theorem retrMove_facts (c : Cfg) (s1 : State) (j : Job) (newc : Nat) :
     Fr c s1 (retrMove c s1 j newc) ∧ (retrMove c s1 j newc).busy = s1.busy ∧
     (j.master = false → (retrMove c s1 j newc).retrQ = s1.retrQ) ∧
     (retrMove c s1 j newc).ptok = s1.ptok ∧
     headOffs c (retrMove c s1 j newc) ≤ max (headOffs c s1) newc := by
   unfold retrMove; split
   · next hm =>
-    refine ⟨(Fr_advance newc hb).trans
+    refine ⟨(Fr_advance newc).trans
       ⟨rfl, rfl, rfl, rfl, fun _ h => h, Nat.le_refl _, fun _ _ hu => Or.inl hu⟩, rfl, ?_, rfl,
       headOffs_advance_le c s1 newc⟩
     intro hh; rw [hm] at hh; cases hh
@@ -741,7 +697,7 @@ theorem retrDone_facts (c : Cfg) (s2 : State) (j : Job) (newc : Nat) :
       | some f =>
         simp only [hub, List.mem_singleton] at hu
         subst hu
-        refine Or.inr (Or.inr ⟨rfl, Or.inl ⟨_, Or.inr (Or.inl List.mem_cons_self), rfl, ?_⟩⟩)
+        refine Or.inr (Or.inl ⟨_, Or.inr (Or.inl List.mem_cons_self), rfl, ?_⟩)
         show 0 < 0 + (if (rres c j.base).ok then (rres c j.base).nb else 1)
         split <;> omega
     · exact Or.inl hu
@@ -776,29 +732,21 @@ theorem HI_retrEnd {c : Cfg} {s s' : State} {j : Job} {k : Option Nat} (h : HI c
       · by_cases he : Phase.retr j0 k0 = Phase.retr j k
         · cases he; exact Or.inl rfl
         · exact Or.inr (JM_detach _ _ _ (Or.inr ⟨k0, mem_erase_ne hk0 he⟩))
-    have hq1 : ∀ x ∈ (detach { s with busy := s.busy.erase (.retr j k) } k).retrQ,
-        x.base ≤ x.curr := by
-      intro x hx; rw [hf.2.2.2.2.2.2.2.1] at hx; exact (hS.jobs x hx).2.2.2.1
     generalize detach { s with busy := s.busy.erase (.retr j k) } k = s1
-      at hf hmc1 hs hho f1 hsplit hq1
+      at hf hmc1 hs hho f1 hsplit
     obtain ⟨g1, g2, g3, g4, g5, g6, g7, g8, g9, g10, g11, g12⟩ := hf
     have g1 : s1.ptok = s.ptok := g1
     have g5 : s1.pdone = s.pdone := g5
     dsimp only at hs
-    have hnl := newc_le (k := k) hj.1
     have hnge := newc_ge c j k
-    generalize retrNewc c j k = newc at hs hnl hnge
-    have hbc : j.base ≤ j.curr := hj.2.2.2.1
+    generalize retrNewc c j k = newc at hs hnge
     by_cases hpd : s1.pdone = true
     · rw [if_pos hpd] at hs
       simp only [Option.some.injEq] at hs; subst hs
       have hpt : s.ptok = true := h.h0.pt (by rw [← g5]; exact hpd)
       have hz : mcount s = 0 := hm0 (Or.inl hpt)
-      have f2 : Fr c s1 (retrExit s1 j) := by
-        refine ⟨rfl, rfl, rfl, rfl, fun _ he => he, Nat.le_refl _, ?_⟩
-        intro hd
-        have hd' : s1.pdone = false := hd
-        rw [hpd] at hd'; cases hd'
+      have f2 : Fr c s1 (retrExit s1 j) :=
+        Fr_same rfl rfl rfl rfl rfl rfl (fun _ he => he)
       refine HI_frame h (f1.trans f2) ?_ ?_
       · intro _; show s1.ptok = true; rw [g1]; exact hpt
       · intro b i _ hm
@@ -809,11 +757,8 @@ theorem HI_retrEnd {c : Cfg} {s s' : State} {j : Job} {k : Option Nat} (h : HI c
       by_cases hab : j.redundant = true
       · rw [if_pos hab] at hs
         simp only [Option.some.injEq] at hs; subst hs
-        have f2 : Fr c s1 (retrExit s1 j) := by
-          refine ⟨rfl, rfl, rfl, rfl, fun _ he => he, Nat.le_refl _, ?_⟩
-          intro _ u hu
-          simp only [retrExit, orphan_redundant hab, List.nil_append] at hu
-          exact Or.inl hu
+        have f2 : Fr c s1 (retrExit s1 j) :=
+          Fr_same rfl rfl rfl rfl rfl rfl (fun _ he => he)
         refine HI_frame h (f1.trans f2) ?_ ?_
         · intro hd
           have hd' : s1.pdone = true := hd
@@ -831,7 +776,7 @@ theorem HI_retrEnd {c : Cfg} {s s' : State} {j : Job} {k : Option Nat} (h : HI c
           cases hmas : j.master with
           | false => rfl
           | true => rw [hmaster hmas] at hh; cases hh
-        obtain ⟨f2, m1, m2, m3, m4⟩ := retrMove_facts c s1 j newc hq1
+        obtain ⟨f2, m1, m2, m3, m4⟩ := retrMove_facts c s1 j newc
         have m5 : (retrMove c s1 j newc).pdone = false := by rw [f2.eP]; exact hpd'
         generalize retrMove c s1 j newc = s2 at hs f2 m1 m2 m3 m4 m5
         have eT2 : ∀ t : State, t.pdone = s2.pdone → t.pdone = true → t.ptok = true := by
@@ -858,17 +803,8 @@ theorem HI_retrEnd {c : Cfg} {s s' : State} {j : Job} {k : Option Nat} (h : HI c
               cases hmcj : Job.mc j with
               | false => rfl
               | true => have := hmhj hmcj; omega
-            have f3 : Fr c s2 (retrExit s2 (retrMoreJob j newc)) := by
-              refine ⟨rfl, rfl, rfl, rfl, fun _ he => he, Nat.le_refl _, ?_⟩
-              intro _ u hu
-              simp only [retrExit, List.mem_append] at hu
-              rcases hu with hu | hu
-              · obtain ⟨d1, d2⟩ := orphan_dropped u hu
-                refine Or.inr (Or.inl ⟨d1, ?_⟩)
-                have d2' : u.base = j.base := d2
-                show u.base < headOffs c s2
-                omega
-              · exact Or.inl hu
+            have f3 : Fr c s2 (retrExit s2 (retrMoreJob j newc)) :=
+              Fr_same rfl rfl rfl rfl rfl rfl (fun _ he => he)
             refine HI_frame h ((f1.trans f2).trans f3) (eT2 _ rfl) ?_
             intro b i _ hm
             obtain ⟨j0, hj0, hb0, hmc⟩ := hm
